@@ -2,6 +2,7 @@ package keyvalue
 
 import (
 	"context"
+	"errors"
 	"io"
 	"path"
 	"time"
@@ -285,6 +286,9 @@ func (f *file) writeBlobAt(op string, p blob.Blob, off int64) (n int, err error)
 	}
 	if f.flag&hackpadfs.FlagAppend != 0 {
 		off = int64(f.Size())
+	}
+	if off < 0 {
+		return 0, &hackpadfs.PathError{Op: op, Path: f.path, Err: errors.New("negative offset")}
 	}
 
 	endIndex := off + int64(p.Len())
